@@ -27,6 +27,7 @@ def run(ctx):
     ctx.call(GR.cloning, "4")
     ctx.call(GR.dependency_lookup, "6")
     ctx.call(GR.index_consistency, "5")
+    ctx.call(GR.name_forms, "7n")
 
 
 NODE = "cartgraph/node.py"
